@@ -48,7 +48,7 @@ class PrefixReplay(c01.Segmentation):
                 p.write(s, thr) if enabled else p.write(s)
                 sent.append((pid, p.raw))
             for cut in range(len(s.data) + 1):
-                for chunk in ((1, None) if tier == 'quick' else (1, 2, 5, None)):
+                for chunk in ((1, None, 'enc3') if tier == 'quick' else (1, 2, 5, None, 'enc1', 'enc3', 'encNone')):
                     cnt += 1
                     bad = self.run_prefix(s.data[:cut], chunk, enabled, sent)
                     if bad:
@@ -62,7 +62,16 @@ class PrefixReplay(c01.Segmentation):
 
     @staticmethod
     def run_prefix(data, chunk, enabled, sent):
-        f = c01.ChunkedFile(data, chunk, budget=20000)
+        if isinstance(chunk, str) and chunk.startswith('enc'):
+            # the same conversation through the real cipher wrapper (AES-CFB8), cut at the same plaintext offset
+            from minecraft.networking import encryption
+            key = bytes(range(16))
+            ck = {'enc1': 1, 'enc3': 3, 'encNone': None}[chunk]
+            wire_bytes = encryption.create_AES_cipher(key).encryptor().update(data)
+            f = encryption.EncryptedFileObjectWrapper(c01.ChunkedFile(wire_bytes, ck, budget=20000),
+                                                      encryption.create_AES_cipher(key).decryptor())
+        else:
+            f = c01.ChunkedFile(data, chunk, budget=20000)
         reactor = c01.make_reactor(enabled)
         orig = select.select
         select.select = lambda r, w, x, t=None: (r, [], [])
